@@ -13,8 +13,11 @@
 (* Every event carries `st`, the projected machine state AFTER the call:    *)
 (*   z    id of the reserved zero frame (0 = none yet)                      *)
 (*   pg   one record per page of the observed universe:                     *)
-(*          up  <<p0,p1,p2>> present bits of the three upper levels as the  *)
-(*              hardware walk meets them (0 after the first absent level)   *)
+(*          up  <<u0,u1,u2>> the three upper-level entries as the hardware  *)
+(*              walk meets them: u = <<P,RW,US,CoW,NX,t>> flag bits of the  *)
+(*              entry and id t of the table it points to (0 unless P); the  *)
+(*              entry that stops the walk is reported with its other bits,  *)
+(*              everything below it as zeros                                *)
 (*          fl  <<P,RW,US,CoW,NX>> bits of the last-level entry (zeros if   *)
 (*              the walk does not get there)                                *)
 (*          f   id of the frame the last-level entry points to (0 = none)   *)
@@ -54,7 +57,9 @@ S0 == [inited |-> FALSE, st |-> EmptySt]
 Range(q) == {q[i] : i \in 1..Len(q)}
 HasContent(st, f) == \E i \in 1..Len(st.ct) : st.ct[i].f = f
 Content(st, f) == IF HasContent(st, f) THEN (CHOOSE x \in Range(st.ct) : x.f = f).c ELSE -1
-Mapped(r) == r.up = <<1, 1, 1>> /\ r.fl[FP] = 1
+\* the hardware walk decides: only the present bits of the upper levels matter for reaching the last level
+UpPresent(r) == \A l \in 1..3 : r.up[l][1] = 1
+Mapped(r) == UpPresent(r) /\ r.fl[FP] = 1
 
 \* (a) no call of the interface may create a writable mapping of the zero frame once vmm is initialised
 ZeroChecks(s, e) ==
@@ -74,7 +79,8 @@ MonInit(s, e) ==
 
 MonMap(s, e) == [s |-> [s EXCEPT !.st = e.st], cs |-> ZeroChecks(s, e)]
 
-Recoverable(pre) == pre.up = <<1, 1, 1>> /\ pre.fl[FP] = 1 /\ pre.fl[FRW] = 0 /\ pre.fl[FCOW] = 1
+\* (whatever other bits - read-only, bit 9, user, no-execute - upper-level entries carry is irrelevant)
+Recoverable(pre) == UpPresent(pre) /\ pre.fl[FP] = 1 /\ pre.fl[FRW] = 0 /\ pre.fl[FCOW] = 1
 
 MonFault(s, e) ==
   LET p      == e.pg
@@ -92,7 +98,7 @@ MonFault(s, e) ==
         <<"C06", ~must /\ e.res # "panic",
                  <<"fault that must end in a panic did not", e.res, "walk", o, "failed allocations", e.nfail, "failed temporary mappings", e.tfailed>> >>,
         <<"C06", must /\ e.res # "resume", <<"copy-on-write fault did not resume", e.res, "walk", o>> >>,
-        <<"C06", must /\ e.res = "resume" /\ q.up # o.up, <<"upper levels changed", o.up, q.up>> >>,
+        <<"C06", must /\ e.res = "resume" /\ q.up # o.up, <<"a page fault modified an upper-level entry", o.up, q.up>> >>,
         <<"C06", must /\ e.res = "resume" /\ q.fl # <<1, 1, o.fl[FUS], 0, o.fl[FNX]>>,
                  <<"flags after copy-on-write", q.fl, "expected", <<1, 1, o.fl[FUS], 0, o.fl[FNX]>> >> >>,
         <<"C06", must /\ e.res = "resume" /\ (q.f <= 0 \/ q.f \notin Range(e.alloc) \/ q.f = s.st.z \/ \E i \in 1..Len(s.st.pg) : s.st.pg[i].f = q.f),
